@@ -7,6 +7,7 @@ import (
 	"os"
 	"os/exec"
 	"path/filepath"
+	"regexp"
 	"sort"
 	"strings"
 	"sync"
@@ -55,6 +56,7 @@ type routerSim struct {
 	rejected map[string]string
 	projects []batchProject
 	bin      string
+	uncompilable []string
 }
 
 func repoRequireBlocks() string {
@@ -272,7 +274,32 @@ func (rs *routerSim) buildBatch() {
 	rs.bin = filepath.Join(rs.s.Dir, "bin", "batch")
 	out, err := run(rs.batchDir, nil, "go", "build", "-o", rs.bin, "./cmd/batch")
 	if err != nil {
-		harnessFail("the generated routers (or the harness) do not compile:\n%s", clip(out, 6000))
+		// Generated code that does not compile is C09's subject, which this family does not claim. Projects
+		// whose routers do not compile are dropped (counted, printed); if that is most of the batch, or the
+		// harness itself is at fault, the check stops with exit 2 and the compiler's message.
+		bad := map[string]bool{}
+		for _, m := range regexp.MustCompile(`(?m)^# simbatch/(p\d+)/`).FindAllStringSubmatch(out, -1) {
+			bad[m[1]] = true
+		}
+		if len(bad) == 0 || len(bad)*2 > len(rs.projects) {
+			harnessFail("the generated routers (or the harness) do not compile:\n%s", clip(out, 6000))
+		}
+		var keep []batchProject
+		for _, bp := range rs.projects {
+			if bad[bp.Tag] {
+				rs.uncompilable = append(rs.uncompilable, bp.Tag)
+				os.Remove(filepath.Join(rs.batchDir, "glue", "glue_"+bp.Tag+".go"))
+				os.RemoveAll(filepath.Join(rs.batchDir, bp.Tag))
+				continue
+			}
+			keep = append(keep, bp)
+		}
+		rs.projects = keep
+		fmt.Printf("routersim: NOTE: the routers gleece generated for %d project(s) do not compile and are left out: %v\n%s\n", len(bad), rs.uncompilable, clip(out, 1500))
+		out, err = run(rs.batchDir, nil, "go", "build", "-o", rs.bin, "./cmd/batch")
+		if err != nil {
+			harnessFail("the generated routers (or the harness) do not compile:\n%s", clip(out, 6000))
+		}
 	}
 	fmt.Printf("routersim: %d projects x 5 engines compiled into one batch binary in %.1fs\n", len(rs.projects), time.Since(t0).Seconds())
 }
@@ -324,7 +351,7 @@ func cmdRouter(prop string, args []string) {
 	start := time.Now()
 	nProj := 16
 	if o.Tier == "thorough" {
-		nProj = 60
+		nProj = 150
 	}
 	if v := os.Getenv("VERIF_ROUTER_PROJECTS"); v != "" {
 		fmt.Sscan(v, &nProj)
@@ -421,6 +448,7 @@ func cmdRouter(prop string, args []string) {
 		"unjudged_policy_requests": num(stats, "unjudged_policy_requests"),
 		"projects":            len(rs.projects),
 		"rejected_workloads":  len(rs.rejected),
+		"projects_with_uncompilable_generated_code": len(rs.uncompilable),
 		"registration_failures": stats["registration_failures"],
 		"requests_per_hour":   int(float64(reqs) / wall * 3600),
 		"simulated_time":      "no clock in this subsystem (no timers; fiber's test timeout disabled)",
